@@ -8,6 +8,113 @@ Python's sets may produce).
 -/
 namespace Holpy.C15
 
+/-! ### `solve_cnf` -/
+
+/-- a satisfiable instance (with a repeated literal) and an unsatisfiable one, used below -/
+def exSat : CNF := [[(0,true),(1,true)],[(0,false),(2,true),(2,true)],[(1,false),(2,false)],[(0,false),(1,false)]]
+def exUnsat : CNF :=
+  [[(0,true),(1,true)],[(0,false),(1,true)],[(0,true),(1,false)],[(0,false),(1,false)]]
+
+theorem exSat_run : solveCnf 100 exSat ⟨[2,1,0],[]⟩ = .sat [(2, true), (1, false), (0, true)] := by
+  rfl
+theorem exUnsat_run : solveCnf 100 exUnsat ⟨[0,1],[]⟩ =
+    .unsat (exUnsat ++ [[(0, false)], []]) [(4, [3, 1]), (5, [2, 4, 0, 4])] := by rfl
+
+/-- `solve_cnf` answering `'satisfiable', a`: `is_solution(cnf, a)` holds (for the input as given,
+before repeated literals are removed). -/
+theorem sat_sound {fuel : Nat} {cnf : CNF} {o : Oracle} {a : List (Nat × Bool)}
+    (h : solveCnf fuel cnf o = .sat a) : isSolution cnf a = true :=
+  (solveCnf_spec fuel cnf o).1 a h
+
+example : isSolution exSat [(2, true), (1, false), (0, true)] = true := sat_sound exSat_run
+
+/-- ... hence some total assignment satisfies every clause. -/
+theorem sat_sound_sem {fuel : Nat} {cnf : CNF} {o : Oracle} {a : List (Nat × Bool)}
+    (h : solveCnf fuel cnf o = .sat a) : ∃ σ, Sat σ cnf :=
+  ⟨asgFun a, sat_of_isSolution (sat_sound h)⟩
+
+example : ∃ σ, Sat σ exSat := sat_sound_sem exSat_run
+
+/-- One checked resolution step (what `resolution(c, d, name)` computes when `c`, `d` clash on
+`name` only in one polarity each) is sound: the resolvent holds wherever both premises hold. -/
+theorem resolveStep_sound {c d r : Clause} {σ : Nat → Bool} (h : resolveStep c d = some r)
+    (hc : ∃ l ∈ c, σ l.1 = l.2) (hd : ∃ l ∈ d, σ l.1 = l.2) : ∃ l ∈ r, σ l.1 = l.2 :=
+  resolveStep_entails h hc hd
+
+example : resolveStep [(0,true),(1,false)] [(0,false),(2,true)] = some [(1,false),(2,true)] := by
+  decide
+
+/-- The trace checker is sound: a clause list whose learned part replays by resolution from
+earlier clauses and ends in the empty clause certifies that the first `n0` clauses are
+unsatisfiable. -/
+theorem checkTrace_sound {c : CNF} {n0 : Nat} {ps : List (Nat × List Nat)}
+    (h : checkTrace c n0 ps = true) : ¬ ∃ σ, Sat σ (c.take n0) :=
+  checkTrace_unsat h
+
+example : ¬ ∃ σ, Sat σ exUnsat := by
+  have h := checkTrace_sound (c := exUnsat ++ [[(0, false)], []]) (n0 := 4)
+    (ps := [(4, [3, 1]), (5, [2, 4, 0, 4])]) (by decide)
+  exact h
+
+/-- The checker the harness runs on every `('unsatisfiable', proofs)` the real `solve_cnf`
+returns (learned clauses rebuilt from the proofs alone): acceptance means the input has no model. -/
+theorem checkProofs_sound {cnf : CNF} {ps : List (Nat × List Nat)}
+    (h : checkProofs cnf ps = true) : ¬ ∃ σ, Sat σ cnf :=
+  checkProofs_unsat h
+
+example : ¬ ∃ σ, Sat σ exUnsat :=
+  checkProofs_sound (ps := [(4, [3, 1]), (5, [2, 4, 0, 4])]) (by decide)
+example : checkProofs exUnsat [(4, [3, 1]), (5, [2, 4, 0])] = false := by decide
+
+/-- `solve_cnf` answering `'unsatisfiable'`: no assignment satisfies the input. -/
+theorem unsat_sound {fuel : Nat} {cnf : CNF} {o : Oracle} {c' : CNF} {ps : List (Nat × List Nat)}
+    (h : solveCnf fuel cnf o = .unsat c' ps) : ¬ ∃ σ, Sat σ cnf :=
+  ((solveCnf_spec fuel cnf o).2.1 c' ps h).1
+
+example : ¬ ∃ σ, Sat σ exUnsat := unsat_sound exUnsat_run
+
+/-- `solve_cnf` answering `'unsatisfiable', proofs`: the final clause list starts with the
+(de-duplicated) input, and `proofs` passes the trace checker against it — ids consecutive, every
+proof cites earlier clauses only, each learned clause is what folding `resolution` over the cited
+clauses gives (pivot = the clashing variable, occurring in one polarity on each side), and the last
+learned clause is empty. -/
+theorem trace_valid {fuel : Nat} {cnf : CNF} {o : Oracle} {c' : CNF} {ps : List (Nat × List Nat)}
+    (h : solveCnf fuel cnf o = .unsat c' ps) :
+    checkTrace c' cnf.length ps = true ∧ c'.take cnf.length = cnf.map dedup :=
+  ⟨((solveCnf_spec fuel cnf o).2.1 c' ps h).2.1, ((solveCnf_spec fuel cnf o).2.1 c' ps h).2.2.1⟩
+
+example : checkTrace (exUnsat ++ [[(0, false)], []]) 4 [(4, [3, 1]), (5, [2, 4, 0, 4])] = true :=
+  (trace_valid exUnsat_run).1
+
+/-- The same from what `solve_cnf` actually returns (the proofs, not the learned clauses): the
+learned clauses can be recomputed by replaying the proofs in order, whatever order `resolution`'s
+sets had, and the proofs pass the checker against the recomputed list. -/
+theorem proofs_valid {fuel : Nat} {cnf : CNF} {o : Oracle} {c' : CNF} {ps : List (Nat × List Nat)}
+    (h : solveCnf fuel cnf o = .unsat c' ps) : checkProofs cnf ps = true :=
+  ((solveCnf_spec fuel cnf o).2.1 c' ps h).2.2.2
+
+example : checkProofs exUnsat [(4, [3, 1]), (5, [2, 4, 0, 4])] = true := proofs_valid exUnsat_run
+
+/-- The verdict agrees with exhaustive search, whichever it is. -/
+theorem verdict_correct {fuel : Nat} {cnf : CNF} {o : Oracle} :
+    (∀ a, solveCnf fuel cnf o = .sat a → ∃ σ, Sat σ cnf) ∧
+    (∀ c' ps, solveCnf fuel cnf o = .unsat c' ps → ¬ ∃ σ, Sat σ cnf) :=
+  ⟨fun _ h => sat_sound_sem h, fun _ _ h => unsat_sound h⟩
+
+example : (∃ σ, Sat σ exSat) ∧ ¬ ∃ σ, Sat σ exUnsat :=
+  ⟨verdict_correct.1 _ exSat_run, verdict_correct.2 _ _ exUnsat_run⟩
+
+/-- `solve_cnf` never raises: the `assert` in `analyze_conflict`, the clause lookups and the
+`clause[-2]` / `assigns[name]` indexing in `backtrack` cannot fail, for any CNF and any set order.
+(The only other outcome of the model is running out of the fuel that stands in for `while True`;
+termination itself is not proved.) -/
+theorem no_crash {fuel : Nat} {cnf : CNF} {o : Oracle} {e : Err}
+    (h : solveCnf fuel cnf o = .error e) : e = .outOfFuel :=
+  (solveCnf_spec fuel cnf o).2.2 e h
+
+example : solveCnf 1 exUnsat ⟨[0,1],[]⟩ = .error .outOfFuel := by rfl
+example : solveCnf 100 exUnsat ⟨[0,1],[]⟩ ≠ .error .assertion := fun h => by cases no_crash h
+
 /-! ### Tseitin rules, regenerated from `library/sat.json` on every run (Gen.lean) -/
 
 theorem encode_conj_valid : ∀ l r1 r2 : Bool, Gen.encode_conj l r1 r2 = true := by decide
@@ -17,5 +124,52 @@ theorem encode_eq_valid : ∀ l r1 r2 : Bool, Gen.encode_eq l r1 r2 = true := by
 theorem encode_not_valid : ∀ l r : Bool, Gen.encode_not l r = true := by decide
 theorem encode_rules_complete :
     Gen.ruleNames = ["encode_conj", "encode_disj", "encode_imp", "encode_eq", "encode_not"] := by decide
+
+/-- The clause groups the model's `tseitin` emits are literally the right-hand sides of the rules
+`tseitin.encode` rewrites with (as `library/sat.json` states them now). -/
+theorem clauses_match_rules :
+    (∀ l r, clausesNot l r = Gen.encode_not_cnf l r) ∧
+    (∀ l r1 r2, clausesAnd l r1 r2 = Gen.encode_conj_cnf l r1 r2) ∧
+    (∀ l r1 r2, clausesOr l r1 r2 = Gen.encode_disj_cnf l r1 r2) ∧
+    (∀ l r1 r2, clausesImp l r1 r2 = Gen.encode_imp_cnf l r1 r2) ∧
+    (∀ l r1 r2, clausesIff l r1 r2 = Gen.encode_eq_cnf l r1 r2) :=
+  ⟨fun _ _ => rfl, fun _ _ _ => rfl, fun _ _ _ => rfl, fun _ _ _ => rfl, fun _ _ _ => rfl⟩
+
+/-- Each rule's clause list says exactly that `l` is the connective applied to `r1`, `r2`
+(for arbitrary, not necessarily distinct, variables). -/
+theorem encode_cnf_meaning (σ : Nat → Bool) :
+    (∀ l r, Sat σ (Gen.encode_not_cnf l r) ↔ σ l = !(σ r)) ∧
+    (∀ l r1 r2, Sat σ (Gen.encode_conj_cnf l r1 r2) ↔ σ l = (σ r1 && σ r2)) ∧
+    (∀ l r1 r2, Sat σ (Gen.encode_disj_cnf l r1 r2) ↔ σ l = (σ r1 || σ r2)) ∧
+    (∀ l r1 r2, Sat σ (Gen.encode_imp_cnf l r1 r2) ↔ σ l = (!(σ r1) || σ r2)) ∧
+    (∀ l r1 r2, Sat σ (Gen.encode_eq_cnf l r1 r2) ↔ σ l = (σ r1 == σ r2)) :=
+  ⟨sat_clausesNot σ, sat_clausesAnd σ, sat_clausesOr σ, sat_clausesImp σ, sat_clausesIff σ⟩
+
+example : Sat (fun n => n == 2) (Gen.encode_conj_cnf 0 1 2) :=
+  ((encode_cnf_meaning _).2.1 0 1 2).mpr rfl
+
+/-! ### Tseitin encoding -/
+
+/-- The CNF of `tseitin.encode(f)` (one variable per distinct subterm, the clauses of each
+subterm's rule, the unit clause of the top variable) is satisfiable iff `f` is. -/
+theorem tseitin_equisat (f : Form) : (∃ σ, Sat σ (tseitin f)) ↔ (∃ ρ, Form.eval ρ f = true) :=
+  tseitinWith_equisat fun _ => mem_dedupF
+
+/-- ... whatever order `term_ord.sorted_terms` numbers the subterms in. -/
+theorem tseitin_equisat_any_order (f : Form) (o : List Form) :
+    (∃ σ, Sat σ (tseitinOrd f o)) ↔ (∃ ρ, Form.eval ρ f = true) :=
+  tseitinOrd_equisat f o
+
+/-- `(a ∧ ¬a) ∨ b`: five variables, nine clauses; satisfiable because the formula is. -/
+def exForm : Form := .or (.and (.atom 0) (.not (.atom 0))) (.atom 1)
+example : tseitin exForm =
+    [[(2, true), (1, true)], [(2, false), (1, false)],
+     [(3, false), (1, true)], [(3, false), (2, true)], [(1, false), (2, false), (3, true)],
+     [(5, false), (3, true), (4, true)], [(3, false), (5, true)], [(4, false), (5, true)],
+     [(5, true)]] := by decide
+example : ∃ σ, Sat σ (tseitin exForm) :=
+  (tseitin_equisat exForm).mpr ⟨fun n => n == 1, by decide⟩
+example : ¬ ∃ σ, Sat σ (tseitin (.and (.atom 0) (.not (.atom 0)))) := by
+  rw [tseitin_equisat]; rintro ⟨ρ, h⟩; simp [Form.eval] at h
 
 end Holpy.C15
